@@ -205,3 +205,11 @@ Example remote_404_not_recognised :
    (Some (mk 0 0 9), Some (mk 0 0 9), mk 0 0 9, 1)] /\
   (forall rev h sq, exists r, set_retry retry_attempts SLocal false None rev h sq = (Some (mkDoc r h sq), Some r)).
 Proof. split; [vm_compute; reflexivity|]. intros rev h sq. apply set_retry_local_ok. Qed.
+
+(* choosing the "lower" checkpoint by SafeSequence instead of Before (seeded regression C17-3) takes the LATER one
+   whenever a backfill token trig:seq meets a plain sequence between seq and trig: local "4", remote "7:3" *)
+Lemma lower_by_safe_sequence_would_skip :
+  let lv := mk 0 0 4 in let rv := mk 7 0 3 in
+  canon lv = lv /\ canon rv = rv /\ before lv rv = true /\ SafeSequence rv < SafeSequence lv /\
+  (let r := if SafeSequence rv <? SafeSequence lv then rv else lv in before lv r = true).
+Proof. vm_compute. repeat split; reflexivity. Qed.
